@@ -2,18 +2,33 @@
 
 use alloc::string::String;
 use alloc::vec::Vec;
+use bitflags::bitflags;
 use log::warn;
 
-use super::common::Feature;
 use crate::{Error, Hal, Result, queue::VirtQueue, transport::Transport};
 
 const QUEUE: u16 = 0;
 const QUEUE_SIZE: usize = 16;
 const P9_HEADER_SIZE: usize = 7; // size (4) + type (1) + tag (2)
-const SUPPORTED_FEATURES: Feature = Feature::RING_INDIRECT_DESC
+const SUPPORTED_FEATURES: Feature = Feature::MOUNT_TAG
+    .union(Feature::RING_INDIRECT_DESC)
     .union(Feature::RING_EVENT_IDX)
     .union(Feature::VERSION_1)
     .union(Feature::ACCESS_PLATFORM);
+
+bitflags! {
+    #[derive(Copy, Clone, Debug, Default, Eq, PartialEq)]
+    struct Feature: u64 {
+        /// The device was given a name: the mount tag in its configuration space is valid.
+        const MOUNT_TAG             = 1 << 0;
+
+        // device independent
+        const RING_INDIRECT_DESC    = 1 << 28;
+        const RING_EVENT_IDX        = 1 << 29;
+        const VERSION_1             = 1 << 32;
+        const ACCESS_PLATFORM       = 1 << 33;
+    }
+}
 
 /// Driver for a VirtIO 9p device.
 pub struct VirtIO9p<H: Hal, T: Transport> {
@@ -37,7 +52,12 @@ impl<H: Hal, T: Transport> VirtIO9p<H, T> {
 
         // Read the configuration space before the queue is set up and the device goes live, so
         // that a failure here doesn't free queue memory which the device may still be using.
-        let mount_tag = read_mount_tag(&transport)?;
+        // The mount tag is only valid if the device offered VIRTIO_9P_MOUNT_TAG.
+        let mount_tag = if features.contains(Feature::MOUNT_TAG) {
+            read_mount_tag(&transport)?
+        } else {
+            String::new()
+        };
 
         let queue = VirtQueue::new(
             &mut transport,
@@ -55,7 +75,7 @@ impl<H: Hal, T: Transport> VirtIO9p<H, T> {
         })
     }
 
-    /// Returns the mount tag reported by the device.
+    /// Returns the mount tag reported by the device (empty if the device has none).
     pub fn mount_tag(&self) -> &str {
         &self.mount_tag
     }
